@@ -312,8 +312,11 @@ def decide(mod, prop, tier, seed, S, wall):
         "inconclusive_reasons": inconc,
         "repo": build.repo_root(),
     }
-    os.makedirs(os.path.join(VERIF, "evidence"), exist_ok=True)
-    with open(os.path.join(VERIF, "evidence", prop + ".json"), "w") as f:
+    # evidence/ describes runs against /repo itself; a run against another checkout (VERIF_REPO: a scratch
+    # worktree carrying a seeded change) leaves its record under scratch/ instead
+    evdir = "evidence" if os.path.realpath(build.repo_root()) == "/repo" else os.path.join("scratch", "evidence-other-tree")
+    os.makedirs(os.path.join(VERIF, evdir), exist_ok=True)
+    with open(os.path.join(VERIF, evdir, prop + ".json"), "w") as f:
         json.dump(ev, f, indent=1, default=str)
     for ln in lines:
         print(ln)
